@@ -1,32 +1,53 @@
 #!/bin/sh
 # Runs every seeded change against its property's quick check and writes seeded/RESULTS.json.
-# Each patch is applied to a scratch worktree of /repo's HEAD ($WT, default /tmp/wtS) which the check reads through VERIF_REPO;
-# /repo itself is not touched.  evidence/ is saved first and restored afterwards (it must describe the unchanged tree).
+# JOBS workers (default 4), each with its own scratch worktree of /repo's HEAD ($WTBASE<k>, default /tmp/wtM<k>) which the check reads
+# through VERIF_REPO; /repo itself is not touched, and evidence goes to a scratch directory (VERIF_EVIDENCE_DIR), not to evidence/.
+# SEEDS="seeded/C04-m1 ..." restricts the run (RESULTS.json is then merged, not replaced).
 cd /verif || exit 2
-WT=${WT:-/tmp/wtS}
-[ -d "$WT" ] || git -C /repo worktree add -q --detach "$WT" HEAD || exit 2
-git -C "$WT" checkout -q --detach "$(git -C /repo rev-parse HEAD)" || exit 2
-git -C "$WT" checkout -- . ; git -C "$WT" clean -fdq
-SAVE=$(mktemp -d); cp evidence/*.json $SAVE/
-OUT=seeded/RESULTS.json
-echo "{" > $OUT.tmp
-first=1
-for d in ${SEEDS:-seeded/C*-m*}; do
-  id=$(basename $d); prop=${id%%-*}
-  P=$d/patch.diff; [ -f $d/patch_rebased.diff ] && P=$d/patch_rebased.diff
-  if git -C "$WT" apply /verif/$P 2>/dev/null; then
-    res=$(VERIF_REPO="$WT" ./vf $prop --tier quick 2>&1)
-    git -C "$WT" checkout -- . ; git -C "$WT" clean -fdq
-    n=$(printf "%s\n" "$res" | grep -c "^VIOLATION")
-    key=$(printf "%s\n" "$res" | grep -A1 "^VIOLATION" | grep "key=" | head -1 | sed 's/^ *key=//' | cut -c1-160 | tr -d '\000-\037' | sed 's/\\/\\\\/g; s/"/\\"/g')
-    st="caught"; [ "$n" = "0" ] && st="not caught"
-  else
-    st="patch does not apply"; n=0; key=""
-  fi
-  [ $first = 1 ] || echo "," >> $OUT.tmp
-  first=0
-  printf ' "%s": {"property": "%s", "patch": "%s", "status": "%s", "violations": %s, "first_key": "%s"}' "$id" "$prop" "$P" "$st" "$n" "$key" >> $OUT.tmp
-  echo "$id: $st ($n)"
+JOBS=${JOBS:-4}; WTBASE=${WTBASE:-/tmp/wtM}
+HEAD=$(git -C /repo rev-parse HEAD)
+TMP=$(mktemp -d)
+ls -d ${SEEDS:-seeded/C*-m*} > $TMP/all
+k=0
+while [ $k -lt $JOBS ]; do
+  awk -v k=$k -v n=$JOBS 'NR % n == k' $TMP/all > $TMP/list$k
+  (
+    WT=$WTBASE$k
+    [ -d "$WT" ] || git -C /repo worktree add -q --detach "$WT" "$HEAD" || exit 2
+    git -C "$WT" checkout -q --detach "$HEAD"; git -C "$WT" checkout -- . ; git -C "$WT" clean -fdq
+    while read d; do
+      id=$(basename $d); prop=${id%%-*}
+      P=$d/patch.diff; [ -f $d/patch_rebased.diff ] && P=$d/patch_rebased.diff
+      if git -C "$WT" apply /verif/$P 2>/dev/null; then
+        res=$(VERIF_REPO="$WT" VERIF_EVIDENCE_DIR=$TMP/ev$k ./vf $prop --tier quick 2>&1); rc=$?
+        git -C "$WT" checkout -- . ; git -C "$WT" clean -fdq
+        n=$(printf "%s\n" "$res" | grep -c "^VIOLATION")
+        key=$(printf "%s\n" "$res" | grep -A1 "^VIOLATION" | grep "key=" | head -1 | sed 's/^ *key=//' | cut -c1-160 | tr -d '\000-\037' | sed 's/\\/\\\\/g; s/"/\\"/g')
+        st="caught"; [ "$n" = "0" ] && st="not caught"
+      else
+        st="patch does not apply"; n=0; key=""; rc=-1
+      fi
+      printf '{"id": "%s", "property": "%s", "patch": "%s", "status": "%s", "exit": %s, "violations": %s, "first_key": "%s"}\n' "$id" "$prop" "$P" "$st" "$rc" "$n" "$key" >> $TMP/out$k
+      echo "$id: $st ($n) exit=$rc"
+    done < $TMP/list$k
+    git -C /repo worktree remove --force "$WT"
+  ) &
+  k=$((k+1))
 done
-echo "" >> $OUT.tmp; echo "}" >> $OUT.tmp; mv $OUT.tmp $OUT
-cp $SAVE/*.json evidence/; rm -rf $SAVE
+wait
+cat $TMP/out* > $TMP/lines
+python3 - "$TMP/lines" <<'PY'
+import json, sys, os
+out = "seeded/RESULTS.json"
+res = json.load(open(out)) if os.environ.get("SEEDS") and os.path.exists(out) else {}
+for l in open(sys.argv[1]):
+    try:
+        r = json.loads(l)
+    except Exception as e:
+        print("unreadable line", l[:120], e); continue
+    res[r.pop("id")] = r
+json.dump(dict(sorted(res.items())), open(out, "w"), indent=1)
+nc = [k for k, v in res.items() if v["status"] != "caught"]
+print(len(res), "seeds;", len(res) - len(nc), "caught; not caught:", nc)
+PY
+rm -rf $TMP; git -C /repo worktree prune
